@@ -63,26 +63,6 @@ def analyse_reduction(ctx, F, sr, ub):
     return k, at
 
 
-def stream_chain(at):
-    """Decompose unwrap(reduce(adaptor(...(iter(src))))) into (reduce_name, cmp_closure, [adaptors], source)."""
-    chain = []
-    cur = at
-    # unwrap / expect
-    if cur.kind == 'app' and cur.name == 'unwrap':
-        cur = cur.args[0]
-        cur = cur.atom if isinstance(cur, I.Sym) else cur
-    red = None
-    while True:
-        if isinstance(cur, I.Sym):
-            cur = cur.atom
-        if not isinstance(cur, nf.Atom) or cur.kind != 'app' or not cur.name.startswith('call:'):
-            break
-        nm = cur.name[len('call:'):].rsplit('::', 1)[-1]
-        chain.append((nm, cur.args[1:] if len(cur.args) > 1 else ()))
-        cur = cur.args[0]
-    return chain, cur
-
-
 def run(ctx):
     for cfg in ctx.configs_used:
         F = ctx.facts(cfg)
